@@ -140,6 +140,14 @@ def runs(chk, tier, exe, d):
     chk.set("enumerated_sequences", sum(1 for _ in open(srecs)) + sum(1 for _ in open(srecs2)))
     # the repository's own programs
     progs = corpus.repo_binaries(d, with_xhexb=(tier != "quick"))
+    # hand-made images: a READ whose destination (sp + 1) is the word its own SVC was fetched from, so that the bytes behind the SVC
+    # change before they are executed (an implementation that keeps the fetched word sees the old ones)
+    import struct as _st
+    for nm, w2 in (("selfmod_readcode1", 0x0047D332), ("selfmod_readcode2", 0x4739D332)):
+        words = [0x97, 1, w2, 0, 0x8211D130, 0xD330]
+        bp = os.path.join(d, nm + ".bin")
+        open(bp, "wb").write(_st.pack('<I', len(words)) + b"".join(_st.pack('<I', w) for w in words) + _st.pack('<II', 0, 0))
+        progs.append((nm, bp, b"A"))
     crecs = os.path.join(d, "cruns.ndjson")
     open(crecs, "w").close()
     limit = 150000 if tier == "quick" else 1500000
